@@ -349,9 +349,16 @@ def one_run(seed, run, force_config=None, overrides=None, max_diag=3):
             if sig in seen_sig:
                 continue
             seen_sig.add(sig)
+            if kind == "thread":
+                def _fails(tr):
+                    e3, _, _ = run_sim(program, st, plan, trace=tr)
+                    return bool(obs.diff(engine.slot_obs(e3, victim, **okw), r2))
+                raw = len(sched.coalesce(trace))
+                trace, ok = sched.minimise_trace(_fails, trace)
+                res["trace_minimised"] = [raw, len(trace), sched.preemptions(trace)]
             payload = {
                 "property": PROP, "config": config, "seed": seed, "run": run, "share_tables": st,
-                "program": program, "victim": victim, "okw": okw, "plan": plan, "trace": trace,
+                "program": program, "victim": victim, "okw": okw, "plan": plan, "trace": trace, "schedule_minimised": res.get("trace_minimised"),
                 "signature": sig, "differs_on": d2[:12],
                 "observed": {k: a2.get(k) for k in d2[:3]}, "expected": {k: r2.get(k) for k in d2[:3]},
             }
